@@ -175,7 +175,7 @@ func VerifH_C11_commitRegime() {
 		}
 	}
 	ways := c11Ways(ps)
-	err := Ways(context.Background(), ways, &c11DS{children: children, reverse: vRange("historyNewestFirst", 0, 1) == 1}, Threshold(vParamDuration()))
+	err := Ways(context.Background(), ways, &c11DS{children: children, reverse: vRange("historyNewestFirst", vParam("minNewestFirst", 0), vParam("maxNewestFirst", 1)) == 1}, Threshold(vParamDuration()))
 	vReach("annotated")
 	vAssert(err == nil, "no-error")
 	if err != nil {
